@@ -360,6 +360,12 @@ def events_kept(radio, agg):
     cases = [(f_l, [True], "listen = True"), (f_l, [False], "listen = False"),
              (radio.prog.method(radio.cls, "open_tx_pipe"), [Bytes([(("const", b"2Node"), Const(5))], "bytes")], "open_tx_pipe(b'2Node')"),
              (radio.prog.method(radio.cls, "open_rx_pipe"), [1, Bytes([(("const", b"3Node"), Const(5))], "bytes")], "open_rx_pipe(1, b'3Node')")]
+    # ... nor does entering / leaving a `with` block: the payload another user of the shared radio failed to deliver is still in the TX
+    # FIFO, and this object's next send() / advertise() discards it only on seeing MAX_RT
+    for cm, cargs in (("__enter__", []), ("__exit__", [Const(None)] * 3)):
+        hit = radio.cls.lookup(cm)
+        if hit is not None and hit[0] == "method":
+            cases.append((hit[1], cargs, "%s()" % cm))
     n = 0
     for f, args, label in cases:
         n += 1
@@ -423,6 +429,10 @@ def run(ck):
     from . import c03
     from ..tables import contract as _ct
     c03.run_setters(radio, agg, _ct.SETTERS)
+    # ... and while `with` re-programs RX_ADDR_P0 from that same cached copy (R09.1/R09.2, shared with C09): the write-elision guards of
+    # open_tx_pipe() / listen compare against it
+    from . import c09
+    c09.check_enter(radio, agg, radio.cls, ck.prog.method(radio.cls, "__enter__"), radio.ref, c09.havoc_regs(radio, radio.fresh()), "RF24.__enter__", ck.prog.method(radio.cls, "__enter__"))
     agg.flush()
     ck.floor("R08.2", "RX-entry scenarios", n[0], 40)
     ck.floor("R08.5", "TX-entry scenarios", n[1], 32)
